@@ -54,7 +54,8 @@ ScenOf(e) == [pages |-> e.pages, q |-> e.q, kind |-> e.kind, fail |-> e.fail, mo
 ObsAfter(o, e) ==
   CASE e.ev = "req" -> [o EXCEPT !.reqs = Append(@, e.tok),
                                  !.tmpls = Append(@, [op |-> e.op, stmt |-> e.stmt, vals |-> e.vals, size |-> e.size,
-                                                      cons |-> e.cons, flags |-> e.flags])]
+                                                      cons |-> e.cons, flags |-> e.flags, serial |-> e.serial,
+                                                      ts |-> e.ts, hflags |-> e.hflags, payload |-> e.payload])]
     [] e.ev = "row" -> [o EXCEPT !.rows = Append(@, <<e.page, e.idx>>)]
     [] e.ev = "end" -> [o EXCEPT !.ended = CASE e.normal = 1 -> "normal" [] e.normal = 0 -> "error"
                                               [] e.normal = 3 -> "panic" [] OTHER -> "no",   \* 2: stopped by the harness (runaway)
@@ -96,8 +97,16 @@ AlteredKind(o) ==
     [] a.vals # b.vals -> "request-altered-values"
     [] a.size # b.size -> "request-altered-pagesize"
     [] a.cons # b.cons -> "request-altered-consistency"
+    [] a.serial # b.serial -> "request-altered-serial-consistency"
+    [] a.ts # b.ts -> "request-altered-timestamp"
+    [] a.payload # b.payload -> "request-altered-payload"
     [] OTHER -> "request-altered-flags"
-Refine(o, k) == IF k = "request-altered" THEN AlteredKind(o) ELSE k
+\* the node decodes every request field by field in the order of the protocol specification; a request it cannot
+\* decode that way (or whose paging state is not one it issued) is logged with token -1
+Refine(o, k) == IF k = "request-altered" THEN AlteredKind(o)
+                ELSE IF k = "request-state-wrong" /\ \E j \in 1 .. Len(o.reqs) : o.reqs[j] = -1
+                     THEN "request-paging-state-not-decodable"
+                ELSE k
 
 Cur == Log[l]
 
